@@ -116,6 +116,53 @@ Theorem C07_yaw : forall px py ux uy uz lat f0 f1 roll pitch yaw yaw',
 Proof. exact c07_yaw. Qed.
 Print Assumptions C07_yaw.
 
+(* the sense of the scan angles (yaw = 0; yaw then turns the view about nadir): with c = nadir x vel
+   (pointing to the right of the velocity) the view's component along c is sin(f0+roll) |c|^2/|vel|,
+   its component along the velocity is <nadir,vel> cos(f1+pitch) - |c| cos(f0+roll) sin(f1+pitch) *)
+Theorem C07_sense_across : forall px py ux uy uz lat f0 f1 roll pitch,
+  let nx := gen_vec_nadir_x px py lat in let ny := gen_vec_nadir_y px py lat in
+  let nz := gen_vec_nadir_z px py lat in
+  let cx := cross_x nx ny nz ux uy uz in let cy := cross_y nx ny nz ux uy uz in
+  let cz := cross_z nx ny nz ux uy uz in
+  nonzero3 ux uy uz -> nonzero3 cx cy cz ->
+  dot3 (gen_vectors_x px py ux uy uz lat f0 f1 roll pitch 0) (gen_vectors_y px py ux uy uz lat f0 f1 roll pitch 0)
+       (gen_vectors_z px py ux uy uz lat f0 f1 roll pitch 0) cx cy cz
+  = sin (f0 + roll) * (cx * cx + cy * cy + cz * cz) / norm3 ux uy uz.
+Proof. intros. apply sense_across; assumption. Qed.
+Print Assumptions C07_sense_across.
+
+Theorem C07_sense_along : forall px py ux uy uz lat f0 f1 roll pitch,
+  let nx := gen_vec_nadir_x px py lat in let ny := gen_vec_nadir_y px py lat in
+  let nz := gen_vec_nadir_z px py lat in
+  let cx := cross_x nx ny nz ux uy uz in let cy := cross_y nx ny nz ux uy uz in
+  let cz := cross_z nx ny nz ux uy uz in
+  nonzero3 ux uy uz -> nonzero3 cx cy cz ->
+  dot3 (gen_vectors_x px py ux uy uz lat f0 f1 roll pitch 0) (gen_vectors_y px py ux uy uz lat f0 f1 roll pitch 0)
+       (gen_vectors_z px py ux uy uz lat f0 f1 roll pitch 0) ux uy uz
+  = dot3 nx ny nz ux uy uz * cos (f1 + pitch) - norm3 cx cy cz * cos (f0 + roll) * sin (f1 + pitch).
+Proof. intros. apply sense_along; assumption. Qed.
+Print Assumptions C07_sense_along.
+
+(* positive across-track angles tilt the view to the right of the velocity, negative to the left;
+   positive along-track angles tilt it backward relative to nadir, negative forward *)
+Theorem C07_sense : forall px py ux uy uz lat f0 f1 roll pitch,
+  let nx := gen_vec_nadir_x px py lat in let ny := gen_vec_nadir_y px py lat in
+  let nz := gen_vec_nadir_z px py lat in
+  let cx := cross_x nx ny nz ux uy uz in let cy := cross_y nx ny nz ux uy uz in
+  let cz := cross_z nx ny nz ux uy uz in
+  let wx := gen_vectors_x px py ux uy uz lat f0 f1 roll pitch 0 in
+  let wy := gen_vectors_y px py ux uy uz lat f0 f1 roll pitch 0 in
+  let wz := gen_vectors_z px py ux uy uz lat f0 f1 roll pitch 0 in
+  nonzero3 ux uy uz -> nonzero3 cx cy cz ->
+  (0 < f0 + roll < PI -> 0 < dot3 wx wy wz cx cy cz) /\
+  (- PI < f0 + roll < 0 -> dot3 wx wy wz cx cy cz < 0) /\
+  (- PI / 2 < f0 + roll < PI / 2 -> 0 < f1 + pitch < PI ->
+     dot3 wx wy wz ux uy uz < dot3 nx ny nz ux uy uz * cos (f1 + pitch)) /\
+  (- PI / 2 < f0 + roll < PI / 2 -> - PI < f1 + pitch < 0 ->
+     dot3 nx ny nz ux uy uz * cos (f1 + pitch) < dot3 wx wy wz ux uy uz).
+Proof. exact c07_sense_signs. Qed.
+Print Assumptions C07_sense.
+
 (* termination of the vectorised latitude loops (model/M_VecLoop.v): with the exit test of the
    fixed code a batch leaves the loop as soon as every position is below 1e-10 or NaN *)
 Theorem C07_terminates : forall n passes,
